@@ -278,14 +278,43 @@ def computed_and_replace(ctx):
 def add_field_shape(ctx):
     run = ctx.run
     af = ctx.N(ctx.repo.func(P + 'add_field:add_field'))
-    calls = [c for c in ast.walk(af.node) if isinstance(c, ast.Call) and u(c.func) == 'add_computed_field']
-    ok = len(calls) == 1
-    if ok:
-        kws = {k.arg: resolve_here(k.value) for k in calls[0].keywords}
-        t = kws.get('target')
-        ok = t is not None and (match_expr('dict(name=name, type=type, **options)', t) is not None) and \
-            pseudo(kws.get('resources')) == 'resources' and 'operation' in kws and \
-            match_expr('default if callable(default) else (lambda _r: default)', kws['operation']) is not None
+    from sa.pathvals import PathValues
+    from sa.model import norm_compare
+    from sa.paths import Enumerator as _En
+    ok = True
+    n_ret = 0
+    seen = set()
+    for p_ in _En(where=af.qualname).paths(af.node.body):
+        pv = PathValues(p_)
+        for v in pv.returns:
+            if not (isinstance(v, ast.Call) and u(v.func) == 'add_computed_field'):
+                ok = False
+                continue
+            n_ret += 1
+            kws = {k.arg: k.value for k in v.keywords}
+            t = kws.get('target')
+            ok = ok and t is not None and match_expr('dict(name=name, type=type, **options)', t) is not None and \
+                pseudo(kws.get('resources')) == 'resources' and 'operation' in kws
+            op = kws.get('operation')
+            if op is None:
+                continue
+            # either the conditional expression, or one arm per path under the callable(default) test
+            if match_expr('default if callable(default) else (lambda _r: default)', op) is not None:
+                seen |= {True, False}
+                continue
+            is_callable = None
+            for g, pol in pv.guards:
+                g, pol = norm_compare(g, pol)
+                if match_expr('callable(default)', g) is not None:
+                    is_callable = pol
+            if is_callable is True:
+                ok = ok and pseudo(op) == 'default'
+            elif is_callable is False:
+                ok = ok and match_expr('lambda _r: default', op) is not None
+            else:
+                ok = False
+            seen.add(is_callable)
+    ok = ok and n_ret >= 1 and seen == {True, False}
     run.check(ok, 'CMP', af.where, af.qualname, 'add_computed_field(target=dict(name=, type=, **options), resources=, operation=default or constant)',
               'add_field does not add the named, typed field with the default as its value')
 
